@@ -934,6 +934,15 @@ class Ev:
         self.cx.call_patterns.add(pat)
         return mathint(self.st.ghost.get('calls:' + pat, z3.IntVal(0)))
 
+    def fn_lastseq(self, args):
+        """lastseq(name): position, in the sequence of counted calls of the function under
+        contract, of its most recent call whose callee name contains `name` (0: none yet)"""
+        if len(args) != 1 or args[0][0] != 'id':
+            raise SpecError('lastseq(<identifier>)')
+        pat = args[0][1]
+        self.cx.call_patterns.add(pat)
+        return mathint(self.st.ghost.get('seq:' + pat, z3.IntVal(0)))
+
     def fn_has(self, args):
         m = self.deref_auto(self.ev(args[0]))
         return boolv(self.map_has(m, self.ev(args[1])))
